@@ -174,7 +174,7 @@ CLAIMS["C20"] = dict(
               "documents that contain its syntax' (parser-level).")
 
 CLAIMS["C05"] = dict(
-    text="Proof of the position-carrying primitives only (a fragment of the property): MarkdownToken.__init__ and the container / leaf / inline base classes give a token built from a position marker exactly (marker.line_number, marker.index_number + marker.index_indent + 1); report_next_token_error / report_next_line_error report exactly the token's (or the line's) position plus the rule's explicit deltas, once, and add_triggered_rule records exactly that position; the scanning primitives the column arithmetic is built from (is_character_at_index*, extract_spaces, extract_until_spaces, collect_while_character) are index-safe, terminate (variant) and return exactly the maximal run from the start index (loop invariants, no bound); adjust_for_newlines restarts the column after the last newline; after a full reference link / image whose label spans lines the column is (leading whitespace the paragraph keeps for that line) + (characters of the label's last line) + 2 and the line moves by the number of newlines in the label (__calculate_full_deltas; D14 fixed); the front-matter token sits at (1,1) and the caller continues at the right line number.",
+    text="Proof of the position-carrying primitives only (a fragment of the property): MarkdownToken.__init__ and the container / leaf / inline base classes give a token built from a position marker exactly (marker.line_number, marker.index_number + marker.index_indent + 1); report_next_token_error / report_next_line_error report exactly the token's (or the line's) position plus the rule's explicit deltas, once, and add_triggered_rule records exactly that position; the scanning primitives the column arithmetic is built from (is_character_at_index*, extract_spaces, extract_until_spaces, collect_while_character) are index-safe, terminate (variant) and return exactly the maximal run from the start index (loop invariants, no bound); adjust_for_newlines restarts the column after the last newline; after a full reference link / image whose label spans lines the column is (leading whitespace the paragraph keeps for that line) + (characters of the label's last line) + 2 and the line moves by the number of newlines in the label (__calculate_full_deltas; D14 fixed); after a code span the inline pass restarts line and column (delta_line_number >= 0) exactly when the SOURCE text between the opening and the closing backticks contains a newline -- whatever padding is stripped from the span's content -- and otherwise stays on the line, and the code span token sits at the request's line and at column + len(remaining_line) (InlineBacktickHelper.__build_backtick_response; seeded change C05-C); the front-matter token sits at (1,1) and the caller continues at the right line number.",
     note=TB + "NOT covered: which marker each of the ~30 token kinds is built from and the rest of the per-construct delta arithmetic of the inline processor (outside the subset); block tokens in non-decreasing line order; 'the source text at that position is the opening text'. Observation D15 (DESIGN.md 11.3): inside a list item inline elements on continuation lines get a column that is too small by the list indent -- no obligation covers it, golden tests pin it.")
 
 CLAIMS["C04"] = dict(
